@@ -165,7 +165,7 @@ def validate_obs(records, tag):
     for line in r["out"].splitlines():
         if line.startswith('<<"VERDICT"'):
             parts = line.strip("<>").split(", ")
-            verdicts[parts[1].strip('"')] = (parts[2] == "TRUE", parts[3] == "TRUE")
+            verdicts[parts[1].strip('"')] = (parts[2] == "TRUE", parts[3] == "TRUE", parts[4] == "TRUE")
     os.remove(p)
     if len(verdicts) != len(records):
         log(r["out"][-3000:])
@@ -254,7 +254,7 @@ def replay(v, pid, cfgobj, scheds, seed, stats, known_dev=None):
     verdicts = validate_obs(recs, f"{pid}-{cfgobj.name}")
     for rec in recs:
         c, s, o, integrity = meta[rec["id"]]
-        serial, reopens = verdicts[rec["id"]]
+        serial, reopens, serial_dd = verdicts[rec["id"]]
         stats["replayed"] += 1
         stats["probes"] = stats.get("probes", 0) + o.get("probes", 0)
         probed = c.get("probe_seed", 0) != 0
@@ -292,6 +292,12 @@ def replay(v, pid, cfgobj, scheds, seed, stats, known_dev=None):
             for f in kf:
                 v.note_known(f)
             continue
+        # a probed replay leaves the specification's path, so its prediction does not apply; the double count of
+        # overlapping DELETEs (F21) is then recognised by the relaxed reading of Serial.tla instead
+        if probed and bad == ["no serial order of the acknowledged statements explains the outcomes"] and serial_dd \
+                and v.is_known("F21"):
+            v.note_known("F21")
+            continue
         v.violation(info, "; ".join(bad))
     return cases
 
@@ -316,7 +322,7 @@ def replay_random(v, pid, cfgobj, n, seed, stats):
     verdicts = validate_obs(recs, f"{pid}-{cfgobj.name}-rnd")
     for rec in recs:
         c, o, integrity = meta[rec["id"]]
-        serial, reopens = verdicts[rec["id"]]
+        serial, reopens, serial_dd = verdicts[rec["id"]]
         stats["random_schedules"] = stats.get("random_schedules", 0) + 1
         bad = []
         if o["deadlock"]:
@@ -330,6 +336,9 @@ def replay_random(v, pid, cfgobj, n, seed, stats):
             bad.append("no serial order of the acknowledged statements explains the outcomes")
         if not reopens:
             bad.append("the store does not reopen to the same tables")
+        if bad == ["no serial order of the acknowledged statements explains the outcomes"] and serial_dd and v.is_known("F21"):
+            v.note_known("F21")
+            continue
         if bad:
             v.violation({"config": cfgobj.name, "case": c, "observed": rec, "log": o["log"]},
                         "random schedule: " + "; ".join(bad))
@@ -508,7 +517,7 @@ def check_c08(args):
                 stats["drift_samples"].append({"trace_event_rejected": ev})
         for rec in recs:
             c, s, o, integrity = meta[rec["id"]]
-            serial, reopens = verdicts[rec["id"]]
+            serial, reopens, serial_dd = verdicts[rec["id"]]
             stats["replayed"] += 1
             stats["drift"] += 1 if o["drift"] else 0
             if o["drift"] and len(stats["drift_samples"]) < 3:
